@@ -118,8 +118,10 @@ CLAIMED = {
              "month, day = min(DAY(n), length of the target month), target 1900-03..9999-12), C17_edate_zero, "
              "C17_edate_compose (EDATE(EDATE(n,a),b) = EDATE(n,a+b) for DAY(n) <= 28); C17_serial_total (YEAR/"
              "MONTH/DAY/WEEKDAY under their wrappers, EVERY integer: ranged numbers on 0..2958465, #NUM! "
-             "elsewhere); C17_date_small_day (days 1..28, ALL integer years and months: TypeError exactly when "
-             "February of a normalised year <= 0 is reached, else #NUM!/60.0/serial day); C17_yearfrac_symmetric "
+             "elsewhere); C17_date_small_day (days 1..28, ALL integer years and months: #NUM!/60.0/serial day, "
+             "never a Raise) and C17_date_before_year1 (a month normalising to a year before 1 is #NUM! for "
+             "EVERY integer day) — both since repair 7da3fd9, before it February of a year <= 0 raised "
+             "TypeError; C17_yearfrac_symmetric "
              "(all integer dates, every basis value: the code orders the dates first; for basis 1 the common "
              "computation is the untranslated yearfrac_basis_1 = Unmodelled on both sides) and "
              "C17_yearfrac_wrapped_symmetric (through the decorator wrapper, integer or missing basis); "
@@ -129,11 +131,15 @@ CLAIMED = {
              "C17_day_borrow_defect (the known finding as a theorem: for -27 <= d <= 0 and a month from 1900-04 "
              "on, DATE(y,m,d) is off from DATE(y,m,1)+d-1 by exactly days_in_month(m) - days_in_month(m-1)). "
              "PARTIAL: "
-             "C17_date_total_partial (no exception: DATE with any year, month >= -11000, |day| <= 25000; EDATE/"
-             "EOMONTH with any serial number, shift >= -10000 — beyond these bounds the model and the "
-             "implementation DO raise: TypeError from is_leap_year(year <= 0), RecursionError/OutOfFuel for "
-             "longer day carries; advisory witnesses Refuted/C17_date_exceptions.v; outside the property's "
-             "quantifier, recorded as inert predicates C17-year-zero-typeerror / C17-day-recursion). REFUTED in "
+             "C17_date_total_partial (no exception: DATE with ANY integer year and month and |day| <= 25000; "
+             "EDATE/EOMONTH with ANY integer serial number and ANY shift — what remains bounded is the day only: "
+             "normalize_year recurses once per month carried, model budget 900 calls, and beyond it the "
+             "implementation raises RecursionError / the model OutOfFuel: advisory witness "
+             "Refuted/C17_date_exceptions.v, predicate C17-day-recursion, exercised by the harness once "
+             "known_findings.json lists it). C17_months_out_of_calendar holds for every shift (no side "
+             "condition). The inputs of the removed TypeError class (DATE(1900,-22810,1), EOMONTH(100,-22815), "
+             "EDATE(100,-22814), shifts -23000..-22701, ...) are a targeted correspondence + oracle stream "
+             "demanding #NUM!. REFUTED in "
              "the model (advisory): the day carry for d <= 0 (Refuted/C17_day_borrow.v, known finding "
              "C17-day-borrow), EOMONTH into 9999-12 (Refuted/C17_eomonth_last_month.v, known finding "
              "C17-eomonth-last-month). Not proved: dates up to serial 60 as EOMONTH/EDATE start or target "
